@@ -275,6 +275,8 @@ type bindStats struct {
 	WithBulk    int            `json:"ok_with_bulk_rows"`
 	Samples     []string       `json:"samples"`
 	Other       int            `json:"unknown_error_wordings"`
+	SpecChecked   int          `json:"accepted_outputs_checked_against_the_property_transcription"`
+	SpecAbstained int          `json:"accepted_outputs_the_transcription_abstained_on"`
 }
 
 func cmdBind(args []string) int {
@@ -315,6 +317,7 @@ func cmdBind(args []string) int {
 		fmt.Fprintln(cw, line)
 		fmt.Fprintln(iw, o.line)
 		bindOracles(c, o, addViol)
+		specOracle(c, o, &st, addViol)
 		st.Cases++
 		f := strings.Fields(o.line)
 		st.Results[f[0]]++
